@@ -9,6 +9,7 @@
 pub mod codecs;
 pub mod explore;
 pub mod fixture;
+pub mod iterproto;
 pub mod kdispatch;
 pub mod kmers;
 pub mod model;
